@@ -432,6 +432,11 @@ func execMvcc(intents []string, st *Stats) (final, outs, oracle []string) {
 					e = e.WithDiscard()
 					sv.discard = true
 				}
+				if meta == 8 {
+					// a merge-operator operand (MergeOperator.Add): never counted by the retention rule
+					e = badger.VerifWithMergeBit(e)
+					sv.merge = true
+				}
 				e.ExpiresAt = exp
 				err = tx.t.SetEntry(e)
 			}
@@ -1079,7 +1084,17 @@ func (s *mvSess) judgeRetention(fail func(string, string)) {
 			sort.Slice(sorted, func(i, j int) bool { return sorted[i].ver > sorted[j].ver })
 			count := 0
 			for _, v := range sorted {
-				if v.ver > s.spec.maxDiscard || v.merge {
+				if v.ver > s.spec.maxDiscard {
+					continue
+				}
+				if v.merge {
+					// a merge-operator operand is never counted; it goes only when it lies below a
+					// version of its key that ends the retained run (C31: operands not yet folded
+					// must survive every compaction)
+					if !have[k][v.ver] && !s.spec.below[k] {
+						fail("C13-lost-merge-operand", fmt.Sprintf("key %s: merge operand at version %d lies above every version that ends the retained run (watermark %d, NumVersionsToKeep=%d) but is gone", hx([]byte(k)), v.ver, s.spec.maxDiscard, s.keep))
+						return
+					}
 					continue
 				}
 				count++
@@ -1516,6 +1531,8 @@ func genMvccSession(rng *rand.Rand, st *Stats) []string {
 				meta = 1
 			case 2:
 				meta = 4
+			case 3:
+				meta = 8 // merge-operator operand
 			}
 			exp := uint64(0)
 			switch rng.Intn(8) {
